@@ -246,7 +246,17 @@ fn parse_offset(s: &str) -> Result<Duration, HifitimeError> {
     };
 
     // Fetch the hours
-    let hours: i64 = match lexical_core::parse(s[indexes.0..indexes.1].as_bytes()) {
+    // `get` rather than indexing: these fixed byte offsets may fall inside a multi-byte character.
+    let hours_str = match s.get(indexes.0..indexes.1) {
+        Some(subs) => subs,
+        None => {
+            return Err(HifitimeError::Parse {
+                source: ParsingError::InvalidTimezone,
+                details: "invalid hours",
+            })
+        }
+    };
+    let hours: i64 = match lexical_core::parse(hours_str.as_bytes()) {
         Ok(val) => val,
         Err(err) => {
             return Err(HifitimeError::Parse {
